@@ -233,6 +233,10 @@ class Runner:
         self.creating = None
         self.tasks = []
         self.rebound = set()
+        self.retry_addr, self.replayed, self.captured, self.spoofed = {}, set(), {}, 0
+        self.replayed_late = set()
+        self.spoof_owner = {}
+        self.arnd = random.Random(sc["sched"]["seed"] * 7 + 3)     # the attacker's own choices
         self.keep = []                  # writers stay referenced: StreamWriter.__del__ would close (send FIN) at a GC-chosen moment
         self.spin = 0
 
@@ -255,6 +259,42 @@ class Runner:
                 return
             if h.packet_type == self.A["packet"].QuicPacketType.RETRY:
                 self.rec.emit(op="retry-sent", addr=self.rec.addr(dst), tok=self.rec.tok(h.token))
+                self.retry_addr[bytes(h.token)] = dst
+        elif (self.sc["net"].get("attack") and dst == SERVER_ADDR and src in self.client_addr and data
+              and (data[0] & 0xB0) == 0x80 and len(data) >= 1200):
+            # the attacker sits on the path: it has seen the Retry and now sees the client's second
+            # Initial carrying the token; it replays that datagram from addresses the token was NOT issued to
+            try:
+                h = self.A["packet"].pull_quic_header(self.A["buffer"].Buffer(data=data), host_cid_length=8)
+            except ValueError:
+                return
+            tok = bytes(h.token)
+            if h.packet_type == self.A["packet"].QuicPacketType.INITIAL and tok in self.retry_addr \
+                    and tok not in self.replayed:
+                self.replayed.add(tok)
+                cl = self.client_addr.index(src) + 1
+                self.captured[cl] = (data, self.retry_addr[tok])
+                self.inject_replays(cl, genuine=False)
+
+    def foreign_addresses(self, base):
+        """Addresses a token issued to `base` must not be accepted from."""
+        ip, port = base[0], base[1]
+        other = "::ffff:127.0.0.2" if ip != "::ffff:127.0.0.2" else "::ffff:127.0.0.3"
+        ports = [(port + 256) % 65536, (port + 512) % 65536, (port - 256) % 65536, port ^ 0x0100]
+        out = [(ip, q, 0, 0) for q in dict.fromkeys(ports) if q != port]
+        out += [(other, port, 0, 0), (other, (port + 1) % 65536, 0, 0)]
+        return out
+
+    def inject_replays(self, cl, genuine):
+        data, base = self.captured[cl]
+        srcs = self.foreign_addresses(base) + ([base] if genuine else [])
+        for a in srcs:
+            if a != base:
+                self.spoof_owner[a] = cl
+            self.spoofed += 1
+            d = Dgram(a, SERVER_ADDR, data, self.loop.now)
+            d.copies = 2            # the network does not duplicate the attacker's datagrams further
+            self.net.q.insert(self.arnd.randrange(len(self.net.q) + 1), d)
 
     def before_deliver(self, d):
         self.creating = None
@@ -274,6 +314,8 @@ class Runner:
         self.creating = None
 
     def client_of(self, addr):
+        if addr in self.spoof_owner:          # a replayed datagram: it is that client's traffic
+            return self.spoof_owner[addr]
         a = self.net.alias.get(addr, addr)
         return self.client_addr.index(a) + 1 if a in self.client_addr else 0
 
@@ -312,6 +354,11 @@ class Runner:
                     self._c19_term = True
                     r.emit(op="term", p=p, code=int(event.error_code) % 100000)
                     runner.dirty = True
+                    if self._c19_side == "s" and self._c19_cl in runner.captured and self._c19_cl not in runner.replayed_late:
+                        # ... and again once the genuine connection is gone (its routing entries are removed):
+                        # from the foreign addresses and from the address the token belongs to
+                        runner.replayed_late.add(self._c19_cl)
+                        runner.inject_replays(self._c19_cl, genuine=True)
                 elif isinstance(event, ev.HandshakeCompleted):
                     self._c19_hs = True
                     r.emit(op="hsdone", p=p)
@@ -387,6 +434,11 @@ class Runner:
                     await asyncio.gather(*ts)
                 else:
                     pending += ts
+            elif k == "pings":
+                # staggered pings: lifetimes overlap, earlier ones may finish while later ones are outstanding
+                for _ in range(op[1]):
+                    pending.append(self.spawn(self.waiter("ping", proto, proto.ping)))
+                    await asyncio.sleep(op[2])
             elif k == "cid":
                 proto.change_connection_id()
             elif k == "sleep":
@@ -646,7 +698,7 @@ class Runner:
                     self.rec.emit(op="exc", type=type(e).__name__, where="task")
             self.dirty = True
             self.snapshot()
-            lossless = self.drops == 0 and self.rebinds == 0
+            lossless = self.drops == 0 and self.rebinds == 0 and self.spoofed == 0
             if quiescent:
                 for kind in ("connected", "ping", "closed"):
                     for late in (False, True):
@@ -661,7 +713,7 @@ class Runner:
 
     def stats(self):
         return {"steps": self.steps, "choice_points": self.choice_points, "nonfifo": self.nonfifo,
-                "drops": self.drops, "dups": self.dups, "rebinds": self.rebinds,
+                "drops": self.drops, "dups": self.dups, "rebinds": self.rebinds, "spoofed": self.spoofed,
                 "datagrams": self.net.sent, "protos": len(self.protos), "vtime": round(self.loop.now, 3)}
 
 
@@ -697,8 +749,10 @@ def make_scenario(rnd, sid, force=None):
                     n = rnd.choice([1, 40, 700, 3000, 9000])
                     out.append(["stream", n, rnd.choice([1, 7]) if n <= 40 else rnd.choice([100, 1200, 5000]),
                                 True if graceful else rnd.random() < 0.5])
-            elif x < 0.55:
+            elif x < 0.45:
                 out.append(["ping", rnd.randint(1, 3), rnd.random() < 0.4])
+            elif x < 0.55:
+                out.append(["pings", rnd.randint(3, 6), rnd.choice([0.0, 0.001, 0.03, 0.3])])
             elif x < 0.7:
                 out.append(["cid"])
             elif x < 0.8:
@@ -750,6 +804,7 @@ def make_scenario(rnd, sid, force=None):
            "dup": rnd.choice([0.0, 0.1, 0.25]), "rebind": rnd.choice([0.0, 0.3]) if (lossy and retry) else 0.0,
            "max_drops": rnd.choice([1, 3, 8, 1000]), "max_dups": rnd.choice([2, 6, 20]),
            "max_delay": rnd.choice([0.0, 0.02, 0.3])}
+    net["attack"] = bool(retry and rnd.random() < 0.7)
     sched = {"seed": rnd.randrange(1 << 30), "fifo": rnd.choice([0.0, 0.5, 0.9]), "tick": rnd.choice([0.0, 0.02, 0.1])}
     return {"id": sid, "retry": retry, "clients": clients, "server": server, "net": net, "sched": sched,
             "expect_complete": bool(graceful)}
